@@ -430,7 +430,13 @@ func storeSequentialExpire(rc *RunCtx, m *storeModel) {
 	// touch some pieces at different times
 	for k := st.Choice(4); k > 0; k-- {
 		simrt.Sleep(time.Duration(1+st.Choice(3000)) * time.Second)
-		m.ps.UpdateTime(uint32(st.Choice(g.NPieces)))
+		i := st.Choice(g.NPieces)
+		m.ps.UpdateTime(uint32(i))
+		// an access is an access whatever the state of the piece: it is what
+		// "least recently accessed" is measured by (nothing else runs here)
+		if tm, now := m.ps.SimTimes()[i], uint32(mono.Now()); m.ps.SimBuffers()[i] > 0 && tm+2 < now {
+			rc.Fail("C03", "access-not-recorded", "", "UpdateTime(%d) at %d s left the piece's access time at %d s (state %d)", i, now, tm, m.ps.SimStates()[i])
+		}
 	}
 	before := m.ps.SimBuffers()
 	states := m.ps.SimStates()
